@@ -512,3 +512,299 @@ Theorem C12_nostd_wide_bits_decode : forall n, 2 ^ 16 <= n -> Z.log2 n < 65000 -
   snd lo <= 0 /\ snd up <= 0.
 Proof. exact nostd_wide_bits_decode. Qed.
 Print Assumptions C12_nostd_wide_bits_decode.
+
+(** * round 4: Lehmer guess never goes negative / never overflows; word loops of lehmer_step and
+      lehmer_ext_step = the value-level linear updates (every word size, every length) *)
+From Dashu Require Import Int.GrlLehmerGuessProof Int.GrlLehmerTopProof Int.GrlLehmerW Int.GrlLehmerWProof Int.GrlLehmerTieProof.
+From Coq Require Import List.
+Import ListNotations.
+Open Scope Z_scope.
+
+(** the guess loop on the aligned leading bits xh = x / P, yh = y / P of ANY x >= y: both new values are
+    non-negative whatever the low bits are; after a successful guess the new x is below y *)
+Theorem C12_guess_loop_nonneg : forall x y P xh yh : Z,
+  0 < P -> xh * P <= x < (xh + 1) * P -> yh * P <= y < (yh + 1) * P -> 0 <= xh -> 0 <= yh ->
+  forall (fuel : nat) (B L a b c d : Z), 1 <= L -> yh <= xh ->
+  lehmer_guess_loop fuel B L 1 0 0 1 xh yh = Ok (a, b, c, d) ->
+  ginv L a b c d /\ 0 <= a * x - b * y /\ 0 <= d * y - c * x /\
+  (b <> 0 -> a * x - b * y < y /\ xh < (L + 1) * yh).
+Proof. exact guess_loop_nonneg. Qed.
+Print Assumptions C12_guess_loop_nonneg.
+
+(** no Word / DoubleWord operation of the guess overflows, no division by zero, [xbar - c] does not underflow *)
+Theorem C12_lehmer_guess_no_panic : forall (w xb yb : Z) (r : reason),
+  2 <= w -> 0 <= yb <= xb -> xb < 2 ^ w -> lehmer_guess w xb yb <> Panic r.
+Proof. exact lehmer_guess_no_panic. Qed.
+Print Assumptions C12_lehmer_guess_no_panic.
+
+Theorem C12_lehmer_guess_dword_no_panic : forall (w xb yb : Z) (r : reason),
+  2 <= w -> 0 <= yb <= xb -> xb < 2 ^ (2 * w) -> lehmer_guess_dword w xb yb <> Panic r.
+Proof. exact lehmer_guess_dword_no_panic. Qed.
+Print Assumptions C12_lehmer_guess_dword_no_panic.
+
+(** highest_word_normalized / highest_dword_normalized return the leading w / 2w bits of x and the bits of y at
+    the same position, in all length cases *)
+Theorem C12_highest_word_normalized_div : forall w : Z, 1 <= w -> forall x y : Z, 0 <= y <= x -> 2 <= wlen w x ->
+  highest_word_normalized w x y = (x / 2 ^ (bit_len x - w), y / 2 ^ (bit_len x - w)) /\
+  w <= bit_len x /\ 2 ^ (w - 1) <= x / 2 ^ (bit_len x - w) < 2 ^ w.
+Proof. exact highest_word_normalized_div. Qed.
+Print Assumptions C12_highest_word_normalized_div.
+
+Theorem C12_highest_dword_normalized_div : forall w : Z, 1 <= w -> forall x y : Z, 0 <= y <= x -> 3 <= wlen w x ->
+  highest_dword_normalized w x y = (x / 2 ^ (bit_len x - 2 * w), y / 2 ^ (bit_len x - 2 * w)) /\
+  2 * w <= bit_len x /\ 2 ^ (2 * w - 1) <= x / 2 ^ (bit_len x - 2 * w) < 2 ^ (2 * w).
+Proof. exact highest_dword_normalized_div. Qed.
+Print Assumptions C12_highest_dword_normalized_div.
+
+(** the step guessed in gcd_in_place / gcd_ext_in_place is never negative; the new x is below y; the lengths
+    of x and y differ by at most one word (debug_assert of lehmer_step) *)
+Theorem C12_lehmer_guess_for_nonneg : forall w : Z, 2 <= w -> forall mdl x y a b c d : Z,
+  3 <= mdl -> 0 <= y <= x -> 2 <= wlen w x ->
+  lehmer_guess_for mdl w x y = Ok (a, b, c, d) ->
+  ginv (coeff_limit w) a b c d /\ 0 <= a * x - b * y /\ 0 <= d * y - c * x /\
+  (b <> 0 -> a * x - b * y < y /\ wlen w x - wlen w y <= 1).
+Proof. exact lehmer_guess_for_nonneg. Qed.
+Print Assumptions C12_lehmer_guess_for_nonneg.
+
+(** the panic branch "the guessed step went negative" of the value-level model is dead, one iteration always
+    succeeds, and the main loop of gcd_in_place never panics *)
+Theorem C12_lehmer_iter_negative_branch_dead : forall w : Z, 2 <= w -> forall mdl x y : Z,
+  3 <= mdl -> 0 <= y <= x -> 2 <= wlen w x -> lehmer_iter mdl w x y = lehmer_iter_total_step w mdl x y.
+Proof. exact lehmer_iter_negative_branch_dead. Qed.
+Print Assumptions C12_lehmer_iter_negative_branch_dead.
+
+Theorem C12_lehmer_iter_always_ok : forall w : Z, 2 <= w -> forall mdl x y : Z,
+  3 <= mdl -> 0 <= y <= x -> 2 <= wlen w x -> exists st : lstep, lehmer_iter mdl w x y = Ok st.
+Proof. exact lehmer_iter_always_ok. Qed.
+Print Assumptions C12_lehmer_iter_always_ok.
+
+Theorem C12_lehmer_loop_never_panics : forall w fuel mdl ml x y sw r, 2 <= w -> 3 <= mdl -> 1 <= ml -> 0 <= y <= x ->
+  lehmer_loop fuel mdl w ml x y sw <> Panic r.
+Proof. exact lehmer_loop_never_panics. Qed.
+Print Assumptions C12_lehmer_loop_never_panics.
+
+(** one word of the two loops: no SignedDoubleWord / DoubleWord overflow, the carry is a SignedWord / Word *)
+Theorem C12_sd_lin_ok : forall w : Z, 2 <= w -> forall p u q v cr : Z,
+  0 <= p <= coeff_limit w -> 0 <= q <= coeff_limit w -> 0 <= u < 2 ^ w -> 0 <= v < 2 ^ w -> cbound w cr ->
+  sd_lin (2 ^ w) p u q v cr = Ok ((p * u - q * v + cr) mod 2 ^ w, (p * u - q * v + cr) / 2 ^ w) /\
+  cbound w ((p * u - q * v + cr) / 2 ^ w).
+Proof. exact sd_lin_ok. Qed.
+Print Assumptions C12_sd_lin_ok.
+
+Theorem C12_ud_lin_ok : forall w : Z, 2 <= w -> forall p u q v cr : Z,
+  0 <= p <= coeff_limit w -> 0 <= q <= coeff_limit w -> 0 <= u < 2 ^ w -> 0 <= v < 2 ^ w -> 0 <= cr < 2 ^ w ->
+  ud_lin (2 ^ w) p u q v cr = Ok ((p * u + q * v + cr) mod 2 ^ w, (p * u + q * v + cr) / 2 ^ w) /\
+  0 <= (p * u + q * v + cr) / 2 ^ w < 2 ^ w.
+Proof. exact ud_lin_ok. Qed.
+Print Assumptions C12_ud_lin_ok.
+
+(** lehmer_step on word lists = (a*x - b*y, d*y - c*x), incl. the extra step for the top word of a longer x *)
+Theorem C12_lstep_words_correct : forall w : Z, 2 <= w -> forall (a b c d : Z) (xs ys : list Z),
+  wordl w xs -> wordl w ys -> ginv (coeff_limit w) a b c d ->
+  length xs = length ys \/ length xs = S (length ys) ->
+  0 <= a * wval (2 ^ w) xs - b * wval (2 ^ w) ys < (2 ^ w) ^ Z.of_nat (length ys) ->
+  0 <= d * wval (2 ^ w) ys - c * wval (2 ^ w) xs ->
+  exists xs1 ys1 : list Z,
+    lstep_words w a b c d xs ys = Ok (xs1, ys1) /\ length xs1 = length xs /\ length ys1 = length ys /\
+    wordl w xs1 /\ wordl w ys1 /\
+    wval (2 ^ w) xs1 = a * wval (2 ^ w) xs - b * wval (2 ^ w) ys /\
+    wval (2 ^ w) ys1 = d * wval (2 ^ w) ys - c * wval (2 ^ w) xs.
+Proof. exact lstep_words_correct. Qed.
+Print Assumptions C12_lstep_words_correct.
+
+(** lehmer_ext_step on word lists: first len words and carries = a*x + b*y, c*x + d*y; never panics *)
+Theorem C12_lext_words_correct : forall w : Z, 2 <= w -> forall (a b c d : Z) (len : nat) (xs ys : list Z),
+  wordl w xs -> wordl w ys ->
+  0 <= a <= coeff_limit w -> 0 <= b <= coeff_limit w -> 0 <= c <= coeff_limit w -> 0 <= d <= coeff_limit w ->
+  (len <= length xs)%nat -> (len <= length ys)%nat ->
+  exists (xl1 yl1 : list Z) (cx cy : Z),
+    lext_words w a b c d (Z.of_nat len) xs ys = Ok (xl1 ++ skipn len xs, yl1 ++ skipn len ys, cx, cy) /\
+    length xl1 = len /\ length yl1 = len /\ wordl w xl1 /\ wordl w yl1 /\ 0 <= cx < 2 ^ w /\ 0 <= cy < 2 ^ w /\
+    wval (2 ^ w) xl1 + cx * (2 ^ w) ^ Z.of_nat len = a * wval (2 ^ w) (firstn len xs) + b * wval (2 ^ w) (firstn len ys) /\
+    wval (2 ^ w) yl1 + cy * (2 ^ w) ^ Z.of_nat len = c * wval (2 ^ w) (firstn len xs) + d * wval (2 ^ w) (firstn len ys).
+Proof. exact lext_words_correct. Qed.
+Print Assumptions C12_lext_words_correct.
+
+(** refinement: on the word lists of x >= y the word-level iteration (guess + lehmer_step) returns the words of
+    the value-level step *)
+Theorem C12_lehmer_iter_words_refines : forall w : Z, 2 <= w ->
+  forall (mdl : Z) (xs ys : list Z) (a b c d x' y' : Z), 3 <= mdl -> wordl w xs -> wordl w ys ->
+  Z.of_nat (length xs) = wlen w (wval (2 ^ w) xs) -> Z.of_nat (length ys) = wlen w (wval (2 ^ w) ys) ->
+  wval (2 ^ w) ys <= wval (2 ^ w) xs -> (2 <= length xs)%nat ->
+  lehmer_iter mdl w (wval (2 ^ w) xs) (wval (2 ^ w) ys) = Ok (StLehmer a b c d x' y') ->
+  exists xs1 ys1 : list Z,
+    lehmer_iter_words mdl w xs ys = Ok (Some (a, b, c, d, xs1, ys1)) /\
+    length xs1 = length xs /\ length ys1 = length ys /\ wordl w xs1 /\ wordl w ys1 /\
+    wval (2 ^ w) xs1 = x' /\ wval (2 ^ w) ys1 = y' /\ 0 <= x' < wval (2 ^ w) ys /\ 0 <= y'.
+Proof. exact lehmer_iter_words_refines. Qed.
+Print Assumptions C12_lehmer_iter_words_refines.
+
+(** trimmed slices (non-zero top word) have wlen words: the length hypotheses above hold for them *)
+Theorem C12_wlen_canonical : forall (w : Z) (l : list Z) (t : Z), 2 <= w -> wordl w (l ++ [t]) -> t <> 0 ->
+  Z.of_nat (length (l ++ [t])) = wlen w (wval (2 ^ w) (l ++ [t])).
+Proof. exact wlen_canonical. Qed.
+Print Assumptions C12_wlen_canonical.
+
+(** outside the contract a negative step is not always caught by the debug_asserts (so the theorems above matter) *)
+Theorem C12_lstep_words_negative_example :
+  lstep_words 64 1 1 0 1 [5; 0] [7; 0] = Ok ([2 ^ 64 - 2; 2 ^ 64 - 2], [7; 0]) /\
+  lstep_words 64 2 3 1 2 [5; 0] [7; 0] = Panic Undocumented.
+Proof. exact lstep_words_negative_example. Qed.
+Print Assumptions C12_lstep_words_negative_example.
+
+(** * round 4: the Lehmer models against the fragments regenerated from integer/src/gcd/lehmer.rs on every run *)
+From Dashu Require Import Int.GrlLehmerGenTie.
+From DashuGen Require Import LehmerFrag.
+
+(** the guess loops of the model take exactly the decisions of the loop bodies of the source (word and double word) *)
+Theorem C12_lehmer_guess_loop_is_source : forall fuel B L a b c d xb yb res,
+  lehmer_guess_loop fuel B L a b c d xb yb = Ok res ->
+  gen_guess_loop gen_half1 gen_half2 fuel L a b c d xb yb = Some res /\
+  gen_guess_loop gen_dhalf1 gen_dhalf2 fuel L a b c d xb yb = Some res.
+Proof. exact lehmer_guess_loop_is_source. Qed.
+Print Assumptions C12_lehmer_guess_loop_is_source.
+
+Theorem C12_gen_dest_is_model :
+  gen_half1_dest = [0; 1; 4]%nat /\ gen_half2_dest = [3; 2; 5]%nat /\
+  gen_dhalf1_dest = [0; 1; 4]%nat /\ gen_dhalf2_dest = [3; 2; 5]%nat.
+Proof. exact gen_dest_is_model. Qed.
+Print Assumptions C12_gen_dest_is_model.
+
+Theorem C12_gen_coeff_limit_is_model : forall w, gen_coeff_limit w = coeff_limit w.
+Proof. exact gen_coeff_limit_is_model. Qed.
+Print Assumptions C12_gen_coeff_limit_is_model.
+
+Theorem C12_sd_lin_is_source : forall W a b c d x y cx cy xt m k,
+  (sd_lin W a x b y cx = Ok (m, k) -> m = gen_lstep_x a b c d x y cx cy xt mod W /\ k = gen_lstep_x a b c d x y cx cy xt / W) /\
+  (sd_lin W d y c x cy = Ok (m, k) -> m = gen_lstep_y a b c d x y cx cy xt mod W /\ k = gen_lstep_y a b c d x y cx cy xt / W).
+Proof. exact sd_lin_is_source. Qed.
+Print Assumptions C12_sd_lin_is_source.
+
+Theorem C12_lstep_top_is_source : forall a b c d x y cx cy xt,
+  gen_lstep_top a b c d x y cx cy xt = a * xt + cx /\ gen_lstep_assert a b c d x y cx cy xt = c * xt.
+Proof. exact lstep_top_is_source. Qed.
+Print Assumptions C12_lstep_top_is_source.
+
+Theorem C12_ud_lin_is_source : forall W a b c d x y cx cy m k,
+  (ud_lin W a x b y cx = Ok (m, k) -> m = gen_lext_x a b c d x y cx cy mod W /\ k = gen_lext_x a b c d x y cx cy / W) /\
+  (ud_lin W c x d y cy = Ok (m, k) -> m = gen_lext_y a b c d x y cx cy mod W /\ k = gen_lext_y a b c d x y cx cy / W).
+Proof. exact ud_lin_is_source. Qed.
+Print Assumptions C12_ud_lin_is_source.
+
+(** * finding F09 (fixed, /repo 1be8c4c): the cofactor update t0 += q*t1 of the Euclidean step worked on the low
+      q_lo.len() + t1_len words of t0 only; equal to t0 + q*t1 iff t0 fits them *)
+Theorem C12_euclid_t0_prefix_ok : forall w qlo_len t0 q t1, 1 <= w -> 0 <= t0 -> 0 <= t1 -> 0 <= qlo_len ->
+  wlen w t0 <= qlo_len + wlen w t1 -> euclid_t0_prefix w qlo_len t0 q t1 = t0 + q * t1.
+Proof. exact euclid_t0_prefix_ok. Qed.
+Print Assumptions C12_euclid_t0_prefix_ok.
+
+Theorem C12_euclid_t0_prefix_refuted :
+  euclid_t0_prefix 64 0 (2 ^ 64) 1 1 = 1 /\ 2 ^ 64 + 1 * 1 <> 1 /\ wlen 64 (2 ^ 64) = 2 /\ wlen 64 1 = 1.
+Proof. exact euclid_t0_prefix_refuted. Qed.
+Print Assumptions C12_euclid_t0_prefix_refuted.
+
+(** * round 4: the u128 cube root (base/src/ring/root.rs, impl NormalizedRootRem for u128) *)
+From Dashu Require Import Int.GrlPrimCbrt128Proof.
+
+(** every answer of normalized_cbrt_rem for u128 is the exact root and remainder: c1*B + q is never below the
+    root, the i128 remainder is n - c^3, the adjustment loop only decrements *)
+Theorem C12_ncbrt128_sound : forall fuel n c r, 0 <= n < 2 ^ 128 -> ncbrt128 fuel n = Ok (c, r) -> cb c n /\ r = n - c ^ 3.
+Proof. exact ncbrt128_sound. Qed.
+Print Assumptions C12_ncbrt128_sound.
+
+Theorem C12_cbrt_div_step : forall n A c1 r1 B b2 low q u,
+  0 < B -> 1 <= c1 -> A = c1 ^ 3 + r1 -> n = A * B ^ 3 + b2 * B ^ 2 + low ->
+  0 <= b2 < B -> 0 <= low < B ^ 2 -> 0 <= q ->
+  r1 * B + b2 = q * (3 * (c1 * c1)) + u -> 0 <= u < 3 * (c1 * c1) ->
+  n - (c1 * B + q) ^ 3 = u * B ^ 2 + low - (3 * c1 * B + q) * (q * q) /\ n < (c1 * B + q + 1) ^ 3.
+Proof. exact cbrt_div_step. Qed.
+Print Assumptions C12_cbrt_div_step.
+
+(** cbrt_rem of every primitive width, u128 included *)
+Theorem C12_prim_cbrt_rem_asis_sound_all : forall fuel bits n c e,
+  (bits = 8 \/ bits = 16 \/ bits = 32 \/ bits = 64 \/ bits = 128) -> 0 <= n < 2 ^ bits ->
+  prim_cbrt_rem_asis fuel bits n = Ok (c, e) -> cb c n /\ e = n - c ^ 3.
+Proof. exact prim_cbrt_rem_asis_sound_all. Qed.
+Print Assumptions C12_prim_cbrt_rem_asis_sound_all.
+
+(** * round 4: the std (libm) log2 estimator, under an explicit libm contract
+      "f32::log2 of a positive binary32 is a binary32 whose two neighbours enclose the true logarithm".
+      No interval tactic any more (ln 2 >= 1/2 from exp 1 <= 3): only the axioms of the real numbers. *)
+From Dashu Require Import Int.GrlLog2Std Int.GrlLog2StdProof.
+Open Scope Z_scope.
+
+(** the contract is satisfiable: a correctly rounding libm fulfils it *)
+Theorem C12_libm_contract_inhabited :
+  let f := fun x => rnd32 (log2R x) in
+  (forall x, (0 < x)%R -> format32 x -> format32 (f x)) /\
+  (forall x, (0 < x)%R -> format32 x -> (next_down (f x) <= log2R x <= next_up (f x))%R).
+Proof. exact libm_contract_inhabited. Qed.
+Print Assumptions C12_libm_contract_inhabited.
+
+(** log2_bounds of u8..u128 (std build): power-of-two shortcut, exact conversion up to 24 bits, shifted top 24 bits *)
+Theorem C12_std_log2_uint_encloses : forall flog2 : R -> R,
+  (forall x, (0 < x)%R -> format32 x -> format32 (flog2 x)) ->
+  (forall x, (0 < x)%R -> format32 x -> (next_down (flog2 x) <= log2R x <= next_up (flog2 x))%R) ->
+  forall n : Z, 0 < n < 2 ^ 128 -> encloses (std_log2_uint flog2 n) (IZR n).
+Proof. exact std_log2_uint_encloses. Qed.
+Print Assumptions C12_std_log2_uint_encloses.
+
+(** log2_bounds_large (integer/src/log.rs): top double word + the two ADJUST products, any length >= 3 words *)
+Theorem C12_std_log2_large_encloses : forall flog2 : R -> R,
+  (forall x, (0 < x)%R -> format32 x -> format32 (flog2 x)) ->
+  (forall x, (0 < x)%R -> format32 x -> (next_down (flog2 x) <= log2R x <= next_up (flog2 x))%R) ->
+  forall wb n len : Z, 32 <= wb <= 64 -> 3 <= len -> 2 ^ ((len - 1) * wb) <= n < 2 ^ (len * wb) ->
+  encloses (std_log2_large flog2 wb n len) (IZR n).
+Proof. exact std_log2_large_encloses. Qed.
+Print Assumptions C12_std_log2_large_encloses.
+
+(** UBig / IBig log2_bounds: every positive integer *)
+Theorem C12_std_log2_ubig_encloses : forall flog2 : R -> R,
+  (forall x, (0 < x)%R -> format32 x -> format32 (flog2 x)) ->
+  (forall x, (0 < x)%R -> format32 x -> (next_down (flog2 x) <= log2R x <= next_up (flog2 x))%R) ->
+  forall wb n : Z, 32 <= wb <= 64 -> 0 < n -> encloses (std_log2_ubig flog2 wb n) (IZR n).
+Proof. exact std_log2_ubig_encloses. Qed.
+Print Assumptions C12_std_log2_ubig_encloses.
+
+(** RBig / Relaxed log2_bounds (rational/src/repr.rs): numerator bounds minus denominator bounds *)
+Theorem C12_std_log2_ratio_encloses : forall flog2 : R -> R,
+  (forall x, (0 < x)%R -> format32 x -> format32 (flog2 x)) ->
+  (forall x, (0 < x)%R -> format32 x -> (next_down (flog2 x) <= log2R x <= next_up (flog2 x))%R) ->
+  forall wb num den : Z, 32 <= wb <= 64 -> num <> 0 -> 0 < den ->
+  encloses (std_log2_ratio flog2 wb num den) (IZR (Z.abs num) / IZR den)%R.
+Proof. exact std_log2_ratio_encloses. Qed.
+Print Assumptions C12_std_log2_ratio_encloses.
+
+(** * round 4: FBig / RBig / IBig log2_bounds on IEEE binary32 operations (Flocq): proved by C14 in
+      Cross/XLog2Flocq.v and Cross/XLog2Large.v for the estimator contract lg_contract (instantiated there by
+      the correctly rounded logarithm); cited here because log2_bounds is C12's property.  After the repair
+      388fab5 of float/src/log.rs (outward step after each rounding). *)
+From Dashu Require Import Cross.XLog2Model Cross.XLog2Flocq Cross.XLog2Large.
+Open Scope Z_scope.
+
+Theorem C12_fbig_log2_bounds_enclose : forall lg, lg_contract lg -> forall w, 32 <= w <= 64 -> forall B s e,
+  2 <= B < 2 ^ 128 -> s <> 0 -> Z.log2 (Z.abs s) < 2 ^ 62 -> Z.abs e <= 2 ^ 63 ->
+  let b := f_log2_bounds lg w B s e in
+  fin (fst b) = true /\ fin (snd b) = true /\
+  (b2r (fst b) <= XLog2Flocq.log2R (IZR (Z.abs s)) + IZR e * XLog2Flocq.log2R (IZR B) <= b2r (snd b))%R.
+Proof. exact f_log2_sound_any. Qed.
+Print Assumptions C12_fbig_log2_bounds_enclose.
+
+Theorem C12_rbig_log2_bounds_enclose : forall lg, lg_contract lg -> forall w, 32 <= w <= 64 -> forall n d,
+  n <> 0 -> 0 < d -> Z.log2 (Z.abs n) < 2 ^ 62 -> Z.log2 d < 2 ^ 62 ->
+  let b := q_log2_bounds lg w n d in
+  fin (fst b) = true /\ fin (snd b) = true /\
+  (b2r (fst b) <= XLog2Flocq.log2R (IZR (Z.abs n) / IZR d) <= b2r (snd b))%R.
+Proof. exact q_log2_sound_any. Qed.
+Print Assumptions C12_rbig_log2_bounds_enclose.
+
+Theorem C12_ibig_log2_bounds_enclose : forall lg, lg_contract lg -> forall w, 32 <= w <= 64 -> forall z,
+  z <> 0 -> Z.log2 (Z.abs z) < 2 ^ 62 ->
+  let b := ibig_log2_bounds lg w z in
+  bd 64 (fst b) /\ bd 64 (snd b) /\ (b2r (fst b) <= XLog2Flocq.log2R (IZR (Z.abs z)) <= b2r (snd b))%R.
+Proof. exact ibig_log2_sound. Qed.
+Print Assumptions C12_ibig_log2_bounds_enclose.
+
+Theorem C12_lg_contract_inhabited : lg_contract lg_nearest.
+Proof. exact lg_nearest_ok. Qed.
+Print Assumptions C12_lg_contract_inhabited.
